@@ -70,7 +70,10 @@ mod contracts {
 }
 use contracts::{Acct, Target};
 
-const MAX_TTL: u32 = 200_000;
+/// max_entry_ttl of the host (about one year of ledgers): persistent / instance entries of the
+/// unmodified code stay live across the long idle gaps (min_persistent_entry_ttl = this - 1)
+const MAX_TTL: u32 = 6_312_000;
+const DAY: u32 = 17_280;
 const NACC: usize = 5; // accounts 1..=5; address 0 is the controller, 9 the target
 const ROLES: [&str; 4] = ["proposer", "executor", "canceller", "other"];
 
@@ -716,6 +719,49 @@ fn directed(t: &mut Trace) {
         s.cancel(t, &Op(0), 1, &[Tok::Call(1)]);
     }
     // ---------------------------------------------------------------------------------------
+    // long idle gaps (1, 31, 100 days, nothing touched in between): operations, minimum delay,
+    // roles and admin must still be there; Done for ever, Waiting until the delay is over
+    t.seq("directed long idle gaps of 1, 31 and 100 days start=1000 min=10 prop=1 exec=3 admin=-");
+    let mut s = Sim::new(1000, 10, &[1], &[3], None);
+    let u1 = s.def(t, od(0, 0, &[U(20)], Zero, 0)); // update_delay(20): consumed before the gaps
+    let u2 = s.def(t, od(0, 0, &[U(30)], Zero, 1)); // update_delay(30): 40 days of delay
+    let g = s.def(t, od(0, 1, &[A(2), S(0), A(0)], Zero, 0)); // grant proposer to 2: Ready, left alone
+    let x = s.def(t, od(9, 10, &[U(5)], Zero, 0)); // external call: executed before the gaps
+    let c = s.def(t, od(0, 0, &[U(99)], Zero, 2)); // cancelled before the gaps
+    let late = s.def(t, od(9, 11, &[U(6)], Zero, 0)); // scheduled after the gaps by the new proposer
+    for k in [u1, g, x, c] {
+        s.sched(t, k, 10, 1, &[Tok::Call(1)]);
+    }
+    s.sched(t, u2, 40 * DAY, 1, &[Tok::Call(1)]);
+    s.advance(t, 10);
+    s.admin(t, 0, &[U(20)], &Some(vec![md(Zero, 0, Some(3))]), &[Tok::Exec(3, 0)]);
+    s.exec(t, x, Some(3), &[Tok::Call(3)]);
+    s.cancel(t, &Op(c), 1, &[Tok::Call(1)]);
+    for gap in [DAY, 31 * DAY, 100 * DAY] {
+        s.advance(t, gap); // nothing touched in between
+        // Done is for ever
+        s.admin(t, 0, &[U(20)], &Some(vec![md(Zero, 0, Some(3))]), &[Tok::Exec(3, 0)]);
+        s.exec(t, x, Some(3), &[Tok::Call(3)]);
+        s.sched(t, u1, 20, 1, &[Tok::Call(1)]);
+        s.cancel(t, &Op(u1), 1, &[Tok::Call(1)]);
+        // the self-admin call still needs a ready operation and a real payload
+        s.admin(t, 0, &[U(99)], &Some(vec![md(Zero, 2, Some(3))]), &[Tok::Exec(3, 0)]); // cancelled
+        s.admin(t, 0, &[U(30)], &Some(vec![]), &[]);
+        s.admin(t, 0, &[U(30)], &None, &[Tok::Call(1)]);
+        // the roles are still the roles
+        s.sched(t, late, 20, 2, &[Tok::Call(2)]); // 2 is not a proposer yet
+        s.exec(t, u2, Some(1), &[Tok::Call(1)]); // 1 is no executor
+        s.cancel(t, &Op(g), 3, &[Tok::Call(3)]); // 3 is no canceller
+        // Waiting until the 40 days are over, then consumable exactly once
+        s.admin(t, 0, &[U(30)], &Some(vec![md(Zero, 1, Some(3))]), &[Tok::Exec(3, 0)]);
+        s.admin(t, 0, &[U(30)], &Some(vec![md(Zero, 1, Some(3))]), &[Tok::Exec(3, 0)]);
+    }
+    s.admin(t, 1, &[A(2), S(0), A(0)], &Some(vec![md(Zero, 0, Some(3))]), &[Tok::Exec(3, 0)]); // Ready since 132 days
+    s.sched(t, late, 29, 2, &[Tok::Call(2)]); // the minimum delay is 30 now
+    s.sched(t, late, 30, 2, &[Tok::Call(2)]);
+    s.advance(t, 30);
+    s.exec(t, late, Some(3), &[Tok::Call(3)]);
+    // ---------------------------------------------------------------------------------------
     t.seq("directed external admin from the start start=10 min=1 prop=2 exec=1 admin=4");
     let mut s = Sim::new(10, 1, &[2], &[1], Some(4));
     s.admin(t, 0, &[U(3)], &Some(vec![]), &[]);
@@ -827,6 +873,8 @@ fn main() {
     let mut rng = Rng::new(seed);
     directed(&mut t);
     for kseq in 0..nseq {
+        // one sequence in eight is a "long idle" one: delays of days, gaps of 1 / 31 / 100 days
+        let long = kseq % 8 == 5;
         let start = *rng.pick(&[2u32, 100, 5000]);
         let mut proposers = vec![1usize];
         if rng.chance(40) {
@@ -841,7 +889,8 @@ fn main() {
         let min = *rng.pick(&[0u32, 0, 1, 3]);
         let cfg = Cfg { proposers: proposers.clone(), executors: executors.clone(), admin };
         t.seq(&format!(
-            "rand k={} seed={} start={} min={} prop={} exec={} admin={}",
+            "rand{} k={} seed={} start={} min={} prop={} exec={} admin={}",
+            if long { " long idle" } else { "" },
             kseq,
             seed,
             start,
@@ -877,6 +926,7 @@ fn main() {
                     8 => wrap.saturating_sub(2),
                     _ => m,
                 };
+                let d = if long && rng.chance(30) { *rng.pick(&[DAY, 30 * DAY, 40 * DAY, 95 * DAY]) } else { d };
                 let huge = d > u32::MAX / 2;
                 let toks = if huge { vec![Tok::Call(by)] } else { plain_toks(&mut rng, by) };
                 let ok = s.sched(&mut t, k, d, by, &toks);
@@ -1032,13 +1082,17 @@ fn main() {
                 let who = 1 + rng.below(NACC as u64) as usize;
                 s.accept(&mut t, &[Tok::Call(who)]);
             } else {
-                let waiting: Vec<u32> = (0..n).map(|j| s.ledger_of(j)).filter(|&l| l > s.now && (l - s.now) < 100).collect();
+                let waiting: Vec<u32> = (0..n).map(|j| s.ledger_of(j)).filter(|&l| l > s.now && (l - s.now) < (if long { 4_000_000 } else { 100 })).collect();
                 let nn = if !waiting.is_empty() && rng.chance(70) {
                     let l = *rng.pick(&waiting);
                     (l - s.now + rng.below(3) as u32).saturating_sub(1)
                 } else {
                     *rng.pick(&[0u32, 1, 1, 2, 5])
                 };
+                let nn = if long && rng.chance(45) { *rng.pick(&[DAY, 31 * DAY, 100 * DAY]) } else { nn };
+                if s.now as u64 + nn as u64 > 5_500_000 {
+                    continue;
+                }
                 s.advance(&mut t, nn);
             }
         }
